@@ -41,6 +41,11 @@ func c07(c *Ctx) {
 	c10R1(c, "R13/C10.R1")
 	sLockDiscipline(c, "R13/S-LOCK", "commitment")
 	sMainOwned(c, "R14/S-OWNER", "configurations", "leaderState")
+	// a follower that truncated an uncommitted configuration entry falls back to
+	// the committed configuration at once – also when the following StoreLogs
+	// fails (round-7 seed C07-M): it must not keep acting on (voting under) a
+	// configuration that is in no log
+	c04R2(c, "R15/C04.R2")
 }
 
 func c07R1(c *Ctx, rule string) {
